@@ -40,14 +40,14 @@ theorem lengthsLoop_pos : ∀ (xs : List Item) (rs : List Rat), lengthsLoop xs =
   | cons it rest ih =>
     intro rs h d hd
     cases it with
-    | s t ys => simp [lengthsLoop, te] at h
+    | s t ys => simp [lengthsLoop, ve] at h
     | a x =>
-      simp only [lengthsLoop, bind, Except.bind] at h
+      simp only [lengthsLoop] at h
       split at h
-      · cases h
       · rename_i r _
         split at h
         · rename_i hr
+          simp only [bind, Except.bind] at h
           split at h
           · cases h
           · rename_i rs' hrs
@@ -57,6 +57,7 @@ theorem lengthsLoop_pos : ∀ (xs : List Item) (rs : List Rat), lengthsLoop xs =
             · subst e; exact hr
             · exact ih rs' hrs d e
         · cases h
+      · cases h
 
 theorem parseLengths_pos {v : Val} {o : Option (List Rat)} (h : parseLengths v = .ok o) :
     ∀ ls, o = some ls → ∀ d ∈ ls, 0 < d := by
